@@ -2325,7 +2325,11 @@ h2_init_con (request_st * const restrict h2r, connection * const restrict con)
          * as con->network_read() is always set in connection_accepted() */
     }
 
-    buffer_string_prepare_copy(h2r->tmp_buf, 65535);
+    /* 128k: HPACK encoding of response headers of (expanded) size < 64k adds
+     * up to 5 bytes per field beyond the 4 bytes (": " "\r\n") counted; there
+     * must always be room for entire header block in h2_send_headers() since
+     * HPACK encoder state is modified as each field is encoded */
+    buffer_string_prepare_copy(h2r->tmp_buf, 131071);
 }
 
 
@@ -2464,7 +2468,7 @@ h2_send_headers (request_st * const r, connection * const con)
 
     /*(h2_init_con() resized h2r->tmp_buf to 64k; shared with r->tmp_buf)*/
     buffer * const tb = r->tmp_buf;
-    force_assert(tb->size >= 65536);/*(sanity check; remove in future)*/
+    force_assert(tb->size >= 131072);/*(room for any HPACK-encoded < 64k hdrs)*/
     unsigned char *dst = (unsigned char *)tb->ptr;
     unsigned char * const dst_end = (unsigned char *)tb->ptr + tb->size;
 
@@ -2512,7 +2516,11 @@ h2_send_headers (request_st * const r, connection * const con)
     /* check size of expanded headers before encoding anything: fields already
      * passed to the encoder update the HPACK dynamic table shared with peer,
      * so the header block must not be abandoned once encoding has begun */
-    for (uint32_t i = 0, used = r->resp_headers.used, tlen = alen; i < used;++i){
+    for (uint32_t i = 0, used = r->resp_headers.used,
+                  tlen = alen + 35+2 /*(date, server added further below)*/
+                       + (r->conf.server_tag
+                          ? 6+buffer_clen(r->conf.server_tag)+4
+                          : 0); i < used; ++i) {
         const data_string * const ds = (data_string *)r->resp_headers.data[i];
         const uint32_t klen = buffer_clen(&ds->key);
         const uint32_t vlen = buffer_clen(&ds->value);
@@ -2718,7 +2726,7 @@ h2_send_headers_block (request_st * const r, connection * const con, const char 
 
     /*(h2_init_con() resized h2r->tmp_buf to 64k; shared with r->tmp_buf)*/
     buffer * const tb = r->tmp_buf;
-    force_assert(tb->size >= 65536);/*(sanity check; remove in future)*/
+    force_assert(tb->size >= 131072);/*(room for any HPACK-encoded < 64k hdrs)*/
     unsigned char *dst = (unsigned char *)tb->ptr;
     unsigned char * const dst_end = (unsigned char *)tb->ptr + tb->size;
 
